@@ -150,6 +150,16 @@ fn main() {
             std::process::exit(2)
         });
         let sub = doc["sub"].as_str().unwrap_or("").to_string();
+        if doc["failure"]["kind"] == "stall" {
+            // the saved case did not return when it was found: replay it under a watchdog
+            let (p2, s2) = (path.clone(), sub.clone());
+            std::thread::spawn(move || {
+                std::thread::sleep(std::time::Duration::from_secs(60));
+                println!("VIOLATION property={id} replay={p2}");
+                println!("  sub-check {s2}: [stall] the code under test did not return within 60 s on this input");
+                std::process::exit(1);
+            });
+        }
         let out = match common::catch(|| replay_fn(&sub, &doc["case"])) {
             Ok(Ok(r)) => r,
             Ok(Err(e)) => {
@@ -181,6 +191,7 @@ fn main() {
         evidence = args.get(i + 1).cloned().unwrap_or_else(|| usage());
     }
     let run = Run::new(id, tier, seed);
+    *run.evidence_path.lock().unwrap() = evidence.clone();
     run.check_findings(&|sub, case| replay_fn(sub, case));
     run_fn(&run);
     run.write_evidence(&evidence);
